@@ -38,7 +38,7 @@ class BoundedOnly(Exception):
 
 # restricted-choice skeletons for which the panel / law-of-motion / targets contracts go through deductively
 # (create_choice_segments is used through its contract); the others stay bounded stand-ins
-DEDUCTIVE_WITH_RESTRICTED_CHOICES = ("retirement-filter", "two-restricted-states-crossed-filters")
+DEDUCTIVE_WITH_RESTRICTED_CHOICES = ("retirement-filter", "two-restricted-states-crossed-filters", "mixed-discrete-choices")
 
 
 def bounded_only_if_restricted_choices(k, skel, clauses, deductive_ok=False):
@@ -98,6 +98,13 @@ def install_choice_segments_contract(k, world):
             ctx.assume(z3.ForAll([i], z3.And(p_ / C == i, p_ % C == c)), tag="arith:div-mod-of-pair-number")
 
         ctx.prove_then_assume("every-agent-keeps-at-least-one-admissible-combination", _forall([i], z3.Implies(z3.And(i >= 0, i < nz), z3.Or(*[mask.get((i * C + c,)) for c in range(C)])), dims=[nz]), "pre")
+        # ground instances of the mask-selection axiom at the pairs of agent 0 (the data space has a row)
+        from pyvc.indexing import mask_selector
+
+        ms = mask_selector(mask)
+        for c in range(C):
+            pc = z3.IntVal(c)
+            ctx.assume(z3.Implies(z3.And(pc < N, mask.get((pc,))), z3.And(ms.rank([pc]) >= 0, ms.rank([pc]) < ms.K)), tag="mask-select")
         return {"segment_ids": out["segment_ids"], "num_segments": n}
 
     world.overrides[qn] = ov
